@@ -864,6 +864,14 @@ func (api *engineAPI) ForkchoiceUpdatedV3(ctx context.Context, state engine.Fork
 		case "invalid":
 			n.record(call, digest, "INVALID", f)
 			return status(engine.INVALID, strp("injected")), nil
+		case "invalid-noerr":
+			// INVALID without a validationError (allowed by the engine API)
+			n.record(call, digest, "INVALID", f)
+			resp := status(engine.INVALID, nil)
+			if n.rng.Chance(0.5) {
+				resp.PayloadStatus.LatestValidHash = &state.SafeBlockHash
+			}
+			return resp, nil
 		case "syncing":
 			n.record(call, digest, "SYNCING", f)
 			return status(engine.SYNCING, nil), nil
@@ -957,6 +965,9 @@ func (api *engineAPI) NewPayloadV4(ctx context.Context, data engine.ExecutableDa
 		case "invalid":
 			n.record("newPayload", digest, "INVALID", f)
 			return engine.PayloadStatusV1{Status: engine.INVALID, ValidationError: strp("injected")}, nil
+		case "invalid-noerr":
+			n.record("newPayload", digest, "INVALID", f)
+			return engine.PayloadStatusV1{Status: engine.INVALID, LatestValidHash: &data.ParentHash}, nil
 		case "syncing":
 			n.record("newPayload", digest, "SYNCING", f)
 			return engine.PayloadStatusV1{Status: engine.SYNCING}, nil
